@@ -640,4 +640,420 @@ Section RT.
              ++ rewrite Hg in Hg'. inversion Hg'; subst g'. right. exact Hpf.
              ++ apply (Mw Ho j g'); auto. lia.
   Qed.
+  (* ================================================================================================ *)
+  (* Generalisation to every nesting depth: the value bytes of a struct-typed element (a struct field, an element of a
+     sequence of structs, the value of a map of structs) may be any bytes `pl` with Q m' fs' pl — bytes the nested parser maps
+     to the nested value, e.g. the nested encoding with unrecognised skippable elements inside (Theorems13: Q = noisy). *)
+  Variable Q : nat -> list value -> bytes -> Prop.
+  Hypothesis HQ : forall m' fs' pl, Q m' fs' pl -> exists cx cv, bparse D sc m' ic (br_of pl) = Ok (fs', cx, cv).
+
+  Definition payq (f0 : nat) (k : fkind) (v : value) (pl : bytes) : Prop :=
+    match k with
+    | KStruct m' => match v with VStruct fs' => Q m' fs' pl | _ => False end
+    | _ => pl = payload f0 sc k v
+    end.
+
+  Lemma payq_pay f0 k v pl : payq f0 k v pl -> pay sc D f0 ic k v pl.
+  Proof. destruct k; intros H; try exact H. destruct v; try exact H. cbn [payq pay] in *. apply HQ. exact H. Qed.
+
+  Lemma step_single_g i g pl : nth_error fs i = Some g -> single (fk g) = true -> present (fk g) (nth i vs VNone) = true ->
+    small pl -> payq f (fk g) (nth i vs VNone) pl ->
+    forall c es x k s p pre, inv i s p -> mixed c (tlv (ftyp g) pl :: es) x -> (length x < k)%nat ->
+    (c = true /\ b_ploop sub k m ic s p (mkbr pre x) = Err E_CRITICAL) \/
+    exists k' s' p' pre' x', mixed c es x' /\ inv (S i) s' p' /\ (length x' < k')%nat /\
+      b_ploop sub k m ic s p (mkbr pre x) = b_ploop sub k' m ic s' p' (mkbr pre' x').
+  Proof using Hsub Hm Hf Hwf HQ.
+    clear Hsmall.
+    intros Hg Hs Hp Hspl Hpay c es x k s p pre Hinv Hmix Hk.
+    assert (Hin0 : (i < n)%nat) by (apply nth_error_Some; congruence).
+    set (v := nth i vs VNone) in *.
+    pose proof (wf_at i g Hg) as Hw. fold v in Hw.
+    pose proof (inv_to_mid i g s p Hg Hinv) as Hmid.
+    assert (Hi : (i < length vs)%nat) by (rewrite len_vs; apply nth_error_Some; congruence).
+    destruct (mixed_inv_cons _ _ _ _ Hmix) as [[u [x1 [-> [Hu Hm1]]]] | [Hc Hcrit]].
+    2:{ left. apply crit_now; auto. destruct Hinv as [_ _ Ip _ _]. lia. }
+    right.
+    destruct Hmid as [Mv Mh Mp Mw Ml].
+    assert (Hin : (i < n)%nat) by (apply nth_error_Some; congruence).
+    destruct (b_ploop_unk u Hu k s p pre (tlv (ftyp g) pl ++ x1)) as [k1 [Hk1 E1]]; [lia|exact Hk|].
+    rewrite E1. destruct k1 as [|k2]; [lia|].
+    rewrite (b_ploop_step sub m nm Hm ic).
+    2:{ pose proof (tlv_length_ge2 (ftyp g) pl). destruct (tlv (ftyp g) pl); [cbn in *; lia|discriminate]. }
+    destruct (b_pstep_field sc sub m nm Hm ic i g pl (Z.of_nat (length (rev u ++ pre))) s p (rev u ++ pre) x1 Hg
+                (single_is_data _ Hs) Hspl Mp) as [s1 [V1 [H1 E2]]].
+    { intros Ho. apply (walk_from_mid i (zero_of (fk g)) s p); [lia| |exact Ho]. constructor; auto. }
+    rewrite E2.
+    destruct (b_rd_field_single_pay sc D Fmax Hsub f ic i (fk g) v pl (Z.of_nat (length (rev u ++ pre))) s1
+                (rev (tl_enc (N.of_nat (length pl))) ++ rev (tl_enc (ftyp g)) ++ rev u ++ pre) x1 Hf Hs Hw Hp Hspl
+                (payq_pay f (fk g) v pl Hpay))
+      as [s2 [E3 [V2 H2]]].
+    rewrite E3.
+    eexists k2, s2, _, _, x1. split; [exact Hm1|]. split; [|split; [|reflexivity]].
+    - apply (make_inv i g); auto.
+      + rewrite V2, V1, Mv. rewrite <- (firstn_len_i i) at 1 by lia. apply upd_app_mid.
+      + intros j g' Hj Hg' Hpj Hrj. rewrite H2.
+        destruct (Nat.eq_dec j i) as [->|Hne].
+        * apply nth_upd_same. destruct H1 as [L1 _]. rewrite <- L1, Ml. apply nth_error_Some. congruence.
+        * rewrite nth_upd_other by congruence. apply H1. apply (Mh j g'); auto. lia.
+      + destruct (ordered m); destruct (is_rep (fk g)) eqn:Er; lia.
+      + intros Ho j g' Hj Hg'. rewrite Ho in Hj.
+        assert (Er : is_rep (fk g) = false) by (destruct (fk g); try discriminate Hs; reflexivity).
+        rewrite Er in Hj. lia.
+      + rewrite H2, upd_length. destruct H1 as [L1 _]. rewrite <- L1. exact Ml.
+    - rewrite !app_length in Hk1. pose proof (tlv_length_ge2 (ftyp g) pl). lia.
+  Qed.
+
+  Lemma step_seq_g c i g k0 : nth_error fs i = Some g -> fk g = KSeq k0 -> seq_sub_ok k0 = true ->
+    forall (lp : list (value * bytes)) old es x k s p pre,
+    (forall e pl, In (e, pl) lp -> is_none e = false /\ wf_val f sc k0 e = true /\ small pl /\ payq (pred f) k0 e pl) ->
+    inv_mid i (VSeq old) s p -> mixed c (map (fun ep => tlv (ftyp g) (snd ep)) lp ++ es) x -> (length x < k)%nat ->
+    (c = true /\ b_ploop sub k m ic s p (mkbr pre x) = Err E_CRITICAL) \/
+    exists k' s' p' pre' x', mixed c es x' /\ inv_mid i (VSeq (old ++ map fst lp)) s' p' /\ (length x' < k')%nat /\
+      b_ploop sub k m ic s p (mkbr pre x) = b_ploop sub k' m ic s' p' (mkbr pre' x').
+  Proof using Hsub Hm Hf Hwf HQ.
+    clear Hsmall.
+    intros Hg Hk Hsub0.
+    assert (Hi : (i < length vs)%nat) by (rewrite len_vs; apply nth_error_Some; congruence).
+    assert (Hin : (i < n)%nat) by (apply nth_error_Some; congruence).
+    assert (Hd : kind_is_data (fk g) = true) by (rewrite Hk; reflexivity).
+    induction lp as [|[e pl] lp IH]; intros old es x k s p pre Hl Hmid Hmix Hk0.
+    - right. exists k, s, p, pre, x. cbn [map]. rewrite app_nil_r. auto.
+    - cbn [map app snd] in Hmix. destruct (mixed_inv_cons _ _ _ _ Hmix) as [[u [x1 [-> [Hu Hm1]]]] | [Hc Hcrit]].
+      2:{ left. apply crit_now; auto. destruct Hmid as [_ _ Ip _ _]. lia. }
+      destruct (Hl e pl (or_introl eq_refl)) as [Hne [Hwe [Hspl Hpay]]].
+      assert (Hf0 : exists f0, f = S f0).
+      { destruct f as [|f0]; [discriminate Hwe|exists f0; reflexivity]. }
+      destruct Hf0 as [f0 Ef0]. rewrite Ef0 in Hwe, Hpay. cbn [pred] in Hpay.
+      pose proof Hmid as [Mv Mh Mp Mw Ml].
+      destruct (b_ploop_unk u Hu k s p pre (tlv (ftyp g) pl ++ x1)) as [k1 [Hk1 E1]]; [lia|exact Hk0|].
+      rewrite E1. destruct k1 as [|k2]; [lia|].
+      rewrite (b_ploop_step sub m nm Hm ic).
+      2:{ pose proof (tlv_length_ge2 (ftyp g) pl). destruct (tlv (ftyp g) pl); [cbn in *; lia|discriminate]. }
+      destruct (b_pstep_field sc sub m nm Hm ic i g pl (Z.of_nat (length (rev u ++ pre))) s p (rev u ++ pre) x1 Hg Hd Hspl Mp)
+        as [s1 [V1 [H1 E2]]].
+      { intros Ho. apply (walk_from_mid i (VSeq old) s p); [lia|exact Hmid|exact Ho]. }
+      rewrite E2. rewrite Hk.
+      assert (Hf0' : (S f0 <= Fmax)%nat) by lia.
+      destruct (b_rd_field_seq_pay sc D Fmax Hsub f0 ic i k0 e pl old (Z.of_nat (length (rev u ++ pre))) s1
+                  (rev (tl_enc (N.of_nat (length pl))) ++ rev (tl_enc (ftyp g)) ++ rev u ++ pre) x1 Hf0' Hsub0 Hne Hwe Hspl
+                  (payq_pay f0 k0 e pl Hpay))
+        as [s2 [E3 [V2 H2]]].
+      { rewrite V1. apply (mid_slot i (VSeq old) s p); [lia|exact Hmid]. }
+      rewrite E3. cbn [is_rep].
+      pose proof (mid_update i (VSeq old) (VSeq (old ++ [e])) s s1 s2 p Hi Hmid V1 H1 V2 H2) as Hmid2.
+      destruct (IH (old ++ [e]) es x1 k2 s2 (if ordered m then (Z.of_nat i - 1)%Z else p)
+                  (rev pl ++ rev (tl_enc (N.of_nat (length pl))) ++ rev (tl_enc (ftyp g)) ++ rev u ++ pre))
+        as [[Hc A4] | [k' [s' [p' [pre' [x' [A1 [A2 [A3 A4]]]]]]]]].
+      + intros e' pl' He'. apply Hl. right. exact He'.
+      + exact Hmid2.
+      + exact Hm1.
+      + rewrite !app_length in Hk1. pose proof (tlv_length_ge2 (ftyp g) pl). lia.
+      + left. split; [exact Hc|]. rewrite <- A4. destruct (ordered m); reflexivity.
+      + right. exists k', s', p', pre', x'. rewrite <- app_assoc in A2. cbn [app] in A2. cbn [map fst].
+        split; [exact A1|]. split; [exact A2|]. split; [exact A3|].
+        rewrite <- A4. destruct (ordered m); reflexivity.
+  Qed.
+
+  Definition map_el (g : field) (key : fkind) (vt : N) (kp : (value * value) * bytes) : bytes :=
+    tlv (ftyp g) (payload (pred f) sc key (fst (fst kp))) ++ tlv vt (snd kp).
+
+  Lemma step_map_g c i g key vt val : nth_error fs i = Some g -> fk g = KMap key vt val ->
+    map_key_ok key = true -> map_val_ok val = true -> vt < two64 ->
+    forall (lp : list ((value * value) * bytes)) old es x k s p pre,
+    (forall kx vx plv, In ((kx, vx), plv) lp ->
+        is_none kx = false /\ is_none vx = false /\ wf_val f sc key kx = true /\ wf_val f sc val vx = true /\
+        small (payload (pred f) sc key kx) /\ small plv /\ payq (pred f) val vx plv) ->
+    keys_nodup (old ++ map fst lp) = true ->
+    inv_mid i (VMap old) s p ->
+    mixed c (map (map_el g key vt) lp ++ es) x -> (length x < k)%nat ->
+    (c = true /\ b_ploop sub k m ic s p (mkbr pre x) = Err E_CRITICAL) \/
+    exists k' s' p' pre' x', mixed c es x' /\ inv_mid i (VMap (old ++ map fst lp)) s' p' /\ (length x' < k')%nat /\
+      b_ploop sub k m ic s p (mkbr pre x) = b_ploop sub k' m ic s' p' (mkbr pre' x').
+  Proof using Hsub Hm Hf Hwf HQ.
+    clear Hsmall.
+    intros Hg Hk Hkey Hval Hvt.
+    assert (Hi : (i < length vs)%nat) by (rewrite len_vs; apply nth_error_Some; congruence).
+    assert (Hin : (i < n)%nat) by (apply nth_error_Some; congruence).
+    assert (Hd : kind_is_data (fk g) = true) by (rewrite Hk; reflexivity).
+    induction lp as [|[[kx vx] plv] lp IH]; intros old es x k s p pre Hl Hnd Hmid Hmix Hk0.
+    - right. exists k, s, p, pre, x. cbn [map]. rewrite app_nil_r. auto.
+    - cbn [map app] in Hmix. unfold map_el at 1 in Hmix. cbn [fst snd] in Hmix.
+      destruct (mixed_inv_cons _ _ _ _ Hmix) as [[u [x1 [-> [Hu Hm1]]]] | [Hc Hcrit]].
+      2:{ left. apply crit_now; auto. destruct Hmid as [_ _ Ip _ _]. clear - Ip Hin. lia. }
+      destruct (Hl kx vx plv (or_introl eq_refl)) as [Hnk [Hnv [Hwk [Hwv [Hsk [Hsv Hpay]]]]]].
+      assert (Hf0 : exists f0, f = S f0).
+      { destruct f as [|f0]; [discriminate Hwk|exists f0; reflexivity]. }
+      destruct Hf0 as [f0 Ef0]. rewrite Ef0 in Hwk, Hwv, Hsk, Hpay, Hk0 |- *. cbn [pred] in Hsk, Hpay, Hk0 |- *.
+      set (plk := payload f0 sc key kx) in *.
+      pose proof Hmid as [Mv Mh Mp Mw Ml].
+      assert (Hk0' : (length (u ++ tlv (ftyp g) plk ++ tlv vt plv ++ x1) < k)%nat).
+      { clear - Hk0. rewrite !app_length in Hk0 |- *. lia. }
+      replace (u ++ (tlv (ftyp g) plk ++ tlv vt plv) ++ x1) with (u ++ tlv (ftyp g) plk ++ tlv vt plv ++ x1)
+        by (rewrite <- !app_assoc; reflexivity).
+      destruct (b_ploop_unk u Hu k s p pre (tlv (ftyp g) plk ++ tlv vt plv ++ x1)) as [k1 [Hk1 E1]]; [clear - Mp Hin; lia|exact Hk0'|].
+      rewrite E1. destruct k1 as [|k2]; [exfalso; clear - Hk1; lia|].
+      rewrite (b_ploop_step sub m nm Hm ic).
+      2:{ apply tlv_app_nonnil. }
+      destruct (b_pstep_field sc sub m nm Hm ic i g plk (Z.of_nat (length (rev u ++ pre))) s p (rev u ++ pre) (tlv vt plv ++ x1) Hg Hd Hsk Mp)
+        as [s1 [V1 [H1 E2]]].
+      { intros Ho. apply (walk_from_mid i (VMap old) s p); [clear - Hi; lia|exact Hmid|exact Ho]. }
+      rewrite E2. rewrite Hk.
+      assert (Hf0' : (S f0 <= Fmax)%nat) by (clear - Hf Ef0; lia).
+      destruct (b_rd_field_map_pay sc D Fmax Hsub f0 ic i key vt val kx vx plv old (Z.of_nat (length (rev u ++ pre))) s1
+                  (rev (tl_enc (N.of_nat (length plk))) ++ rev (tl_enc (ftyp g)) ++ rev u ++ pre) x1
+                  Hf0' Hkey Hval Hvt Hnk Hnv Hwk Hwv Hsk Hsv (payq_pay f0 val vx plv Hpay))
+        as [s2 [E3 [V2 H2]]].
+      { rewrite V1. apply (mid_slot i (VMap old) s p); [clear - Hi; lia|exact Hmid]. }
+      fold plk in E3. rewrite E3. cbn [is_rep].
+      assert (Hfresh : map_put kx vx old = old ++ [(kx, vx)]).
+      { apply map_put_fresh. apply not_true_is_false. intro Hex. apply existsb_exists in Hex as [o [Ho Eo]].
+        pose proof (keys_nodup_app old ((kx, vx) :: map fst lp) Hnd o (kx, vx) Ho (or_introl eq_refl)) as Hne. cbn [fst] in Hne.
+        rewrite value_eqb_key_sym in Hne. congruence. }
+      rewrite Hfresh in V2.
+      pose proof (mid_update i (VMap old) (VMap (old ++ [(kx, vx)])) s s1 s2 p Hi Hmid V1 H1 V2 H2) as Hmid2.
+      destruct (IH (old ++ [(kx, vx)]) es x1 k2 s2 (if ordered m then (Z.of_nat i - 1)%Z else p)
+                  (rev (plk ++ tlv vt plv) ++ rev (tl_enc (N.of_nat (length plk))) ++ rev (tl_enc (ftyp g)) ++ rev u ++ pre))
+        as [[Hc A4] | [k' [s' [p' [pre' [x' [A1 [A2 [A3 A4]]]]]]]]].
+      + intros kx' vx' plv' Hkv. apply Hl. right. exact Hkv.
+      + rewrite <- app_assoc. exact Hnd.
+      + exact Hmid2.
+      + exact Hm1.
+      + pose proof (tlv_length_ge2 (ftyp g) plk) as Hge. clear - Hk1 Hge. rewrite !app_length in Hk1. lia.
+      + left. split; [exact Hc|]. rewrite <- A4. destruct (ordered m); reflexivity.
+      + right. exists k', s', p', pre', x'. rewrite <- app_assoc in A2. cbn [app] in A2. cbn [map fst].
+        split; [exact A1|]. split; [exact A2|]. split; [exact A3|].
+        rewrite <- A4. destruct (ordered m); reflexivity.
+  Qed.
+
+  (* ---- the element list of a value whose struct-typed elements carry bytes satisfying Q ---- *)
+  Inductive nelem_val (g : field) (v : value) : list bytes -> Prop :=
+  | ne_seq k0 (lp : list (value * bytes)) : fk g = KSeq k0 -> v = VSeq (map fst lp) ->
+      (forall e pl, In (e, pl) lp -> is_none e = false /\ wf_val f sc k0 e = true /\ small pl /\ payq (pred f) k0 e pl) ->
+      nelem_val g v (map (fun ep => tlv (ftyp g) (snd ep)) lp)
+  | ne_map key vt val (lp : list ((value * value) * bytes)) : fk g = KMap key vt val -> v = VMap (map fst lp) ->
+      (forall kx vx plv, In ((kx, vx), plv) lp ->
+          is_none kx = false /\ is_none vx = false /\ wf_val f sc key kx = true /\ wf_val f sc val vx = true /\
+          small (payload (pred f) sc key kx) /\ small plv /\ payq (pred f) val vx plv) ->
+      nelem_val g v (map (map_el g key vt) lp)
+  | ne_single pl : is_rep (fk g) = false -> single (fk g) && present (fk g) v = true -> small pl -> payq f (fk g) v pl ->
+      nelem_val g v [tlv (ftyp g) pl]
+  | ne_absent : is_rep (fk g) = false -> single (fk g) && present (fk g) v = false -> nelem_val g v [].
+
+  Inductive nelems : list field -> list value -> list bytes -> Prop :=
+  | nel_nil ws : nelems [] ws []
+  | nel_cons g gs v ws ev es : nelem_val g v ev -> nelems gs ws es -> nelems (g :: gs) (v :: ws) (ev ++ es).
+
+  Lemma mixed_inv_nil0 c x : mixed c [] x -> unk c x \/ (c = true /\ unk true x).
+  Proof. intros H. inversion H; subst; [left; assumption|right; auto]. Qed.
+
+  Lemma fields_loop_g c : forall rem i, (rem = n - i)%nat -> (i <= n)%nat ->
+    forall es x k s p pre, inv i s p -> nelems (skipn i fs) (skipn i vs) es -> mixed c es x -> (length x < k)%nat ->
+    if c then b_ploop sub k m ic s p (mkbr pre x) = Err E_CRITICAL
+    else exists cx cv, b_ploop sub k m ic s p (mkbr pre x) = Ok (vs, cx, cv).
+  Proof using Hsub Hm Hf Hwf HQ.
+    clear Hsmall.
+    induction rem as [|rem IH]; intros i Hrem Hi es x k s p pre Hinv Hnel Hmix Hk.
+    - (* all fields done: trailing unrecognised elements, then the final pass *)
+      assert (i = n) by lia. subst i.
+      rewrite skipn_all in Hnel. inversion Hnel; subst. clear Hnel.
+      destruct Hinv as [Iv Ih Ip Iw Il].
+      destruct (mixed_inv_nil0 _ _ Hmix) as [Hu | [Hc Hu]].
+      2:{ subst c. apply b_ploop_unk_crit; [exact Hu|lia|exact Hk]. }
+      destruct c; [apply b_ploop_unk_crit; [exact Hu|lia|exact Hk]|].
+      destruct (b_ploop_unk x Hu k s p pre []) as [k1 [Hk1 E1]]; [lia|rewrite app_nil_r; exact Hk|].
+      rewrite app_nil_r in E1. rewrite E1. destruct k1 as [|k2]; [cbn in Hk1; lia|].
+      rewrite (b_ploop_end sub m nm Hm ic).
+      rewrite skipn_all in Iv. cbn [zeros map] in Iv. rewrite app_nil_r in Iv.
+      rewrite <- len_vs in Iv. rewrite firstn_all in Iv.
+      destruct (b_finish_vals sc (S f) fs 0 (Z.of_nat (length (rev x ++ pre))) s (mkbr (rev x ++ pre) [])) as [s' [E2 E3]].
+      + intros j g Hg Hh. cbn [plus] in *. rewrite Iv. split; [apply wf_at; exact Hg|].
+        unfold skippable. destruct (is_rep (fk g)) eqn:Er; [left; reflexivity|right].
+        destruct (present (fk g) (nth j vs VNone)) eqn:Ep; [|reflexivity].
+        assert (Hjn : (j < n)%nat) by (apply nth_error_Some; congruence).
+        rewrite (Ih j g Hjn Hg Ep Er) in Hh. discriminate Hh.
+      + rewrite E2. rewrite E3, Iv. eauto.
+    - assert (Hlt : (i < n)%nat) by lia.
+      destruct (nth_error fs i) as [g|] eqn:Hg; [|apply nth_error_None in Hg; lia].
+      pose proof (nth_vs i g Hg) as Hv. set (v := nth i vs VNone) in *.
+      rewrite (nth_error_skipn_cons fs i g Hg), (nth_error_skipn_cons vs i v Hv) in Hnel.
+      inversion Hnel as [|g0 gs0 v0 ws0 ev es' Hev Hrest]; subst g0 gs0 v0 ws0 es. clear Hnel.
+      pose proof (wf_at i g Hg) as Hw. fold v in Hw.
+      assert (Hil : (i < length vs)%nat) by (rewrite len_vs; exact Hlt).
+      assert (Hnext : forall k' s' p' pre' x', mixed c es' x' ->
+                inv (S i) s' p' -> (length x' < k')%nat ->
+                if c then b_ploop sub k' m ic s' p' (mkbr pre' x') = Err E_CRITICAL
+                else exists cx cv, b_ploop sub k' m ic s' p' (mkbr pre' x') = Ok (vs, cx, cv)).
+      { intros k' s' p' pre' x' A1 A2 A3. apply (IH (S i)) with (es := es'); auto; lia. }
+      pose proof (inv_to_mid i g s p Hg Hinv) as Hmid0.
+      destruct Hev as [k0 lp Ek Ev Hl | key vt val lp Ek Ev Hl | pl Erep Esp Hspl Hpay | Erep Esp].
+      + (* sequence *)
+        rewrite Ek in Hmid0. cbn [zero_of] in Hmid0.
+        destruct (step_seq_g c i g k0 Hg Ek (wf_seq_sub i g k0 Hg Ek) lp [] es' x k s p pre Hl Hmid0 Hmix Hk)
+          as [[Hc A4] | [k' [s' [p' [pre' [x' [A1 [A2 [A3 A4]]]]]]]]].
+        { subst c. exact A4. }
+        rewrite A4. cbn [app] in A2. destruct A2 as [Mv Mh Mp Mw Ml].
+        apply Hnext; auto. apply (make_inv i g); auto.
+        -- fold v. rewrite Ev. exact Mv.
+        -- intros j g' Hj Hg' Hpj Hrj. destruct (Nat.eq_dec j i) as [->|Hne].
+           ++ rewrite Hg in Hg'. inversion Hg'; subst g'. rewrite Ek in Hrj. discriminate Hrj.
+           ++ apply (Mh j g'); auto. lia.
+        -- lia.
+        -- intros Ho j g' Hj Hg'. destruct (Nat.eq_dec j i) as [->|Hne].
+           ++ rewrite Hg in Hg'. inversion Hg'; subst g'. left. rewrite Ek. reflexivity.
+           ++ apply (Mw Ho j g'); auto. lia.
+      + (* map *)
+        rewrite Ek in Hmid0. cbn [zero_of] in Hmid0.
+        destruct (wf_map_sub i g key vt val Hg Ek) as [Hkey [Hval Hvt]].
+        assert (Hnd : keys_nodup ([] ++ map fst lp) = true).
+        { cbn [app]. rewrite Ek, Ev in Hw. cbn [wf_val] in Hw. apply andb_true_iff in Hw as [_ Hnd]. exact Hnd. }
+        destruct (step_map_g c i g key vt val Hg Ek Hkey Hval Hvt lp [] es' x k s p pre Hl Hnd Hmid0 Hmix Hk)
+          as [[Hc A4] | [k' [s' [p' [pre' [x' [A1 [A2 [A3 A4]]]]]]]]].
+        { subst c. exact A4. }
+        rewrite A4. cbn [app] in A2. destruct A2 as [Mv Mh Mp Mw Ml].
+        apply Hnext; auto. apply (make_inv i g); auto.
+        -- fold v. rewrite Ev. exact Mv.
+        -- intros j g' Hj Hg' Hpj Hrj. destruct (Nat.eq_dec j i) as [->|Hne].
+           ++ rewrite Hg in Hg'. inversion Hg'; subst g'. rewrite Ek in Hrj. discriminate Hrj.
+           ++ apply (Mh j g'); auto. lia.
+        -- lia.
+        -- intros Ho j g' Hj Hg'. destruct (Nat.eq_dec j i) as [->|Hne].
+           ++ rewrite Hg in Hg'. inversion Hg'; subst g'. left. rewrite Ek. reflexivity.
+           ++ apply (Mw Ho j g'); auto. lia.
+      + (* a present single-element field *)
+        apply andb_true_iff in Esp as [Es Ep]. cbn [app] in Hmix.
+        destruct (step_single_g i g pl Hg Es Ep Hspl Hpay c es' x k s p pre Hinv Hmix Hk)
+          as [[Hc A4] | [k' [s' [p' [pre' [x' [A1 [A2 [A3 A4]]]]]]]]].
+        { subst c. exact A4. }
+        rewrite A4. apply Hnext; auto.
+      + (* absent / marker *)
+        cbn [app] in Hmix.
+        assert (Hel : elems_val f sc (ftyp g) (fk g) v =
+                      if single (fk g) && present (fk g) v then [enc_val (S f) sc (ftyp g) (fk g) v] else []).
+        { destruct (fk g); try discriminate Erep; destruct v; reflexivity. }
+        assert (Hz : v = zero_of (fk g)).
+        { apply (elems_nil_zero f sc (ftyp g) (fk g) v Hw). rewrite Hel, Esp. reflexivity. }
+        assert (Hnp : single (fk g) = false \/ present (fk g) v = false) by (apply andb_false_iff; exact Esp).
+        assert (Hpf : present (fk g) v = false).
+        { destruct Hnp as [Hns|Hnp]; [|exact Hnp]. destruct (fk g); try discriminate Hns; try discriminate Erep; reflexivity. }
+        destruct Hmid0 as [Mv Mh Mp Mw Ml].
+        apply Hnext; auto. apply (make_inv i g); auto.
+        -- fold v. rewrite Hz. exact Mv.
+        -- intros j g' Hj Hg' Hpj Hrj. destruct (Nat.eq_dec j i) as [->|Hne].
+           ++ rewrite Hg in Hg'. inversion Hg'; subst g'. fold v in Hpj. congruence.
+           ++ apply (Mh j g'); auto. lia.
+        -- lia.
+        -- intros Ho j g' Hj Hg'. destruct (Nat.eq_dec j i) as [->|Hne].
+           ++ rewrite Hg in Hg'. inversion Hg'; subst g'. right. exact Hpf.
+           ++ apply (Mw Ho j g'); auto. lia.
+  Qed.
+
+
+  (* ---- exact encodings are a special case ---- *)
+  Lemma payq_exact f0 k v :
+    (forall m' fs', wf_value f0 sc m' fs' = true -> small (encode f0 sc m' fs') -> Q m' fs' (encode f0 sc m' fs')) ->
+    wf_val (S f0) sc k v = true -> present k v = true -> small (payload f0 sc k v) -> payq f0 k v (payload f0 sc k v).
+  Proof using.
+    intros HQe Hw Hp Hs. destruct k; try reflexivity.
+    destruct v; try discriminate Hw; try discriminate Hp. cbn [payq payload] in *.
+    match goal with |- Q ?mm ?ff _ =>
+      specialize (HQe mm ff); cbn [wf_val] in Hw; unfold wf_value, encode, the_model in *;
+      destruct (nth_error sc mm) as [md|] eqn:Em; [|discriminate Hw];
+      rewrite (nth_error_nth' sc mm md _ Em) in *; apply HQe; assumption
+    end.
+  Qed.
+
+  Lemma small_tlv_payload t pl : small (tlv t pl) -> small pl.
+  Proof using. intros H. unfold tlv in H. apply small_app_r in H. apply small_app_r in H. exact H. Qed.
+
+  Lemma nelems_exact :
+    (forall m' fs', wf_value f sc m' fs' = true -> small (encode f sc m' fs') -> Q m' fs' (encode f sc m' fs')) ->
+    (forall m' fs', wf_value (pred f) sc m' fs' = true -> small (encode (pred f) sc m' fs') -> Q m' fs' (encode (pred f) sc m' fs')) ->
+    forall rem i, (rem = n - i)%nat -> (i <= n)%nat ->
+    nelems (skipn i fs) (skipn i vs) (elems_fields f sc (skipn i fs) (skipn i vs)).
+  Proof using Hm Hwf Hsmall Hsub Hf HQ.
+    intros HQ1 HQ2. induction rem as [|rem IH]; intros i Hrem Hi.
+    - assert (i = n) by lia. subst i. rewrite skipn_all. cbn [elems_fields]. constructor.
+    - assert (Hlt : (i < n)%nat) by lia.
+      destruct (nth_error fs i) as [g|] eqn:Hg; [|apply nth_error_None in Hg; lia].
+      pose proof (nth_vs i g Hg) as Hv. set (v := nth i vs VNone) in *.
+      rewrite (nth_error_skipn_cons fs i g Hg), (nth_error_skipn_cons vs i v Hv).
+      cbn [elems_fields]. apply nel_cons; [|apply IH; lia].
+      pose proof (wf_at i g Hg) as Hw. fold v in Hw.
+      pose proof (small_field fs vs i g Hsmall Hg) as Hsv. fold v in Hsv.
+      destruct (is_rep (fk g)) eqn:Erep.
+      + destruct (fk g) as [o1|w1 o1|o1| |o1| | | |m1|k0|key vt val|a1 b1|c1| |a1 b1| ] eqn:Ek; try discriminate Erep.
+        * (* sequence *)
+          destruct v as [| | | | | |l| |] eqn:Ev; try discriminate Hw.
+          cbn [elems_val]. cbn [wf_val] in Hw. rewrite forallb_forall in Hw.
+          pose proof (wf_seq_sub i g k0 Hg Ek) as Hsub0.
+          assert (Hall : forall e, In e l -> is_none e = false /\ wf_val f sc k0 e = true /\
+                           enc_val f sc (ftyp g) k0 e = tlv (ftyp g) (payload (pred f) sc k0 e) /\
+                           small (payload (pred f) sc k0 e) /\ payq (pred f) k0 e (payload (pred f) sc k0 e)).
+          { intros e He. specialize (Hw e He). apply andb_true_iff in Hw as [W1 W2]. apply negb_true_iff in W1.
+            assert (Hf0 : exists f0, f = S f0) by (destruct f as [|f0]; [discriminate W2|exists f0; reflexivity]).
+            destruct Hf0 as [f0 Ef0].
+            destruct (seq_sub_facts k0 e Hsub0 W1) as [_ [Hsg Hpr]].
+            assert (Ee : enc_val f sc (ftyp g) k0 e = tlv (ftyp g) (payload (pred f) sc k0 e)).
+            { rewrite Ef0. cbn [pred]. apply enc_val_single; [exact Hsg|rewrite <- Ef0; exact W2|exact Hpr]. }
+            assert (Hse : small (enc_val f sc (ftyp g) k0 e)).
+            { cbn [enc_val] in Hsv. apply (small_concat_in _ _ Hsv). apply in_map. exact He. }
+            rewrite Ee in Hse. apply small_tlv_payload in Hse.
+            repeat split; auto.
+            rewrite Ef0 in *. cbn [pred] in *. apply payq_exact; auto. }
+          replace (map (enc_val f sc (ftyp g) k0) l)
+            with (map (fun ep : value * bytes => tlv (ftyp g) (snd ep)) (map (fun e => (e, payload (pred f) sc k0 e)) l)).
+          2:{ rewrite map_map. apply map_ext_in. intros e He. cbn [snd]. symmetry. apply (Hall e He). }
+          apply (ne_seq g (VSeq l) k0 (map (fun e => (e, payload (pred f) sc k0 e)) l) Ek).
+          -- rewrite map_map. cbn [fst]. rewrite map_id. reflexivity.
+          -- intros e pl Hin. apply in_map_iff in Hin as [e0 [E0 He0]]. inversion E0; subst e pl.
+             destruct (Hall e0 He0) as [A [B [_ [C Dq]]]]. auto.
+        * (* map *)
+          destruct v as [| | | | | | |l|] eqn:Ev; try discriminate Hw.
+          cbn [elems_val]. cbn [wf_val] in Hw. apply andb_true_iff in Hw as [Hw Hnd]. rewrite forallb_forall in Hw.
+          destruct (wf_map_sub i g key vt val Hg Ek) as [Hkey [Hval Hvt]].
+          assert (Hall : forall kv, In kv l ->
+                    is_none (fst kv) = false /\ is_none (snd kv) = false /\ wf_val f sc key (fst kv) = true /\ wf_val f sc val (snd kv) = true /\
+                    enc_val f sc (ftyp g) key (fst kv) ++ enc_val f sc vt val (snd kv) =
+                      map_el g key vt (kv, payload (pred f) sc val (snd kv)) /\
+                    small (payload (pred f) sc key (fst kv)) /\ small (payload (pred f) sc val (snd kv)) /\
+                    payq (pred f) val (snd kv) (payload (pred f) sc val (snd kv))).
+          { intros kv He. specialize (Hw kv He).
+            apply andb_true_iff in Hw as [Hw W4]. apply andb_true_iff in Hw as [Hw W3]. apply andb_true_iff in Hw as [W1 W2].
+            apply negb_true_iff in W1. apply negb_true_iff in W3.
+            assert (Hf0 : exists f0, f = S f0) by (destruct f as [|f0]; [discriminate W2|exists f0; reflexivity]).
+            destruct Hf0 as [f0 Ef0].
+            destruct (seq_sub_facts key (fst kv) (map_key_seq _ Hkey) W1) as [_ [Hsgk Hprk]].
+            destruct (seq_sub_facts val (snd kv) (map_val_seq _ Hval) W3) as [_ [Hsgv Hprv]].
+            assert (Ek1 : enc_val f sc (ftyp g) key (fst kv) = tlv (ftyp g) (payload (pred f) sc key (fst kv))).
+            { rewrite Ef0. cbn [pred]. apply enc_val_single; [exact Hsgk|rewrite <- Ef0; exact W2|exact Hprk]. }
+            assert (Ev1 : enc_val f sc vt val (snd kv) = tlv vt (payload (pred f) sc val (snd kv))).
+            { rewrite Ef0. cbn [pred]. apply enc_val_single; [exact Hsgv|rewrite <- Ef0; exact W4|exact Hprv]. }
+            assert (Hse : small (enc_val f sc (ftyp g) key (fst kv) ++ enc_val f sc vt val (snd kv))).
+            { cbn [enc_val] in Hsv. apply (small_concat_in _ _ Hsv).
+              apply (in_map (fun kv0 => enc_val f sc (ftyp g) key (fst kv0) ++ enc_val f sc vt val (snd kv0)) l kv He). }
+            rewrite Ek1, Ev1 in Hse.
+            pose proof (small_tlv_payload _ _ (small_app_l _ _ Hse)) as Hsk.
+            pose proof (small_tlv_payload _ _ (small_app_r _ _ Hse)) as Hsv2.
+            repeat split; auto.
+            - rewrite Ek1, Ev1. reflexivity.
+            - rewrite Ef0 in *. cbn [pred] in *. apply payq_exact; auto. }
+          replace (map (fun kv => enc_val f sc (ftyp g) key (fst kv) ++ enc_val f sc vt val (snd kv)) l)
+            with (map (map_el g key vt) (map (fun kv => (kv, payload (pred f) sc val (snd kv))) l)).
+          2:{ rewrite map_map. apply map_ext_in. intros kv He. symmetry. apply (Hall kv He). }
+          apply (ne_map g (VMap l) key vt val (map (fun kv => (kv, payload (pred f) sc val (snd kv))) l) Ek).
+          -- rewrite map_map. cbn [fst]. rewrite map_id. reflexivity.
+          -- intros kx vx plv Hin. apply in_map_iff in Hin as [kv0 [E0 He0]]. inversion E0; subst kv0 plv.
+             destruct (Hall (kx, vx) He0) as [A [B [C [Dw [_ [E1 [E2 E3]]]]]]]. cbn [fst snd] in *. repeat split; auto.
+      + assert (Hel : elems_val f sc (ftyp g) (fk g) v =
+                      if single (fk g) && present (fk g) v then [enc_val (S f) sc (ftyp g) (fk g) v] else []).
+        { destruct (fk g); try discriminate Erep; destruct v; reflexivity. }
+        rewrite Hel.
+        destruct (single (fk g) && present (fk g) v) eqn:Esp.
+        * pose proof Esp as Esp'. apply andb_true_iff in Esp' as [Es Ep].
+          rewrite (enc_val_single f sc (ftyp g) (fk g) v Es Hw Ep) in *.
+          apply ne_single; auto.
+          -- apply small_tlv_payload in Hsv. exact Hsv.
+          -- apply payq_exact; auto. apply small_tlv_payload in Hsv. exact Hsv.
+        * apply ne_absent; auto.
+  Qed.
 End RT.
